@@ -36,6 +36,48 @@ def gen_programs(ctx, n, depth):
     return progs
 
 
+def sessions(ctx, progs, n, leg):
+    """long sessions: 20-30 generated programs, each in a random spelling, evaluated one after another on ONE interpreter.  Their
+    global names collide, so later programs redefine the procedures and variables of earlier ones; whatever state the
+    interpreter keeps between forms (caches, the global frame, macro table) has to stay exact over hundreds of forms"""
+    r = ctx.rng
+    sess = []
+    tries = 0
+    while len(sess) < n and tries < n * 4:
+        tries += 1
+        forms = []
+        for v in r.sample(progs, min(len(progs), r.randint(20, 30))):
+            forms += v[r.choice(gen_core.SPELLINGS)]
+        try:
+            exp = diff.model_run(forms, Strategy())
+        except OutOfModel:
+            ctx.count("sessions_discarded"); continue
+        # a redefinition may leave an earlier closure calling a procedure of another arity: cut the session before the first error
+        k = next((i for i, e in enumerate(exp) if e[0] == "err"), len(forms))
+        if k < 60:
+            ctx.count("sessions_discarded"); continue
+        sess.append(forms[:k])
+    jobs = [diff.job_for(f, "s%d" % i, fuel=400000) for i, f in enumerate(sess)]
+    recs = core.run_jobs(jobs, leg, timeout=3000, tag="c01s")
+    for forms, rec in zip(sess, recs):
+        ctx.evaluations += 1
+        if rec is None or "steps" not in rec:
+            if rec and "abort" in rec:
+                ctx.violation({"what": "process died during a long session", "kind": "abort", "dedupe": "session-abort"}, {"forms": [show(f) for f in forms], "abort": rec["abort"]})
+            else:
+                ctx.inconclusive_cases += 1
+            continue
+        verdict, detail = diff.compare_history(forms, rec["steps"])
+        if verdict == "ok":
+            ctx.count("sessions_agree"); ctx.count("session_forms", len(forms))
+        elif verdict in ("oom", "fuel"):
+            ctx.inconclusive_cases += 1
+        else:
+            ctx.violation({"what": "long session of core programs on one interpreter disagrees with the reference semantics", "kind": "model", "why": detail["why"],
+                           "form": detail["form"], "form_index": detail["form_index"], "leg": leg, "dedupe": "session|" + detail["why"][:40]},
+                          {"forms": [show(f) for f in forms], "detail": detail, "leg": leg})
+
+
 def values_only(steps):
     return [(json.dumps(s.get("ok"), sort_keys=True), json.dumps(s.get("trace", []))) if "ok" in s else ("E", json.dumps(s.get("err", s.get("panic")), sort_keys=True)[:80]) for s in steps]
 
@@ -98,6 +140,7 @@ def run(tier, seed):
                                    "plain": base[k] if k is not None else None, "spelled": v[k] if k is not None else None, "dedupe": sp},
                                   {"plain": [show(f) for f in progs[i]["plain"]], sp: [show(f) for f in progs[i][sp]]})
         ctx.legs.append(leg)
+    sessions(ctx, progs, 40 if tier == "quick" else core.share(1600), legs[-1])
     for v in progs[:2]:
         ctx.sample({sp: [show(f) for f in forms] for sp, forms in list(v.items())[:2]})
     return ctx.finish(min_evals=200, min_nontrivial=50)
